@@ -90,9 +90,31 @@ func Tables() (map[string]plrt.FuncCall, map[string]plrt.FuncCheck) {
 
 var stdCall, stdCheck = Tables()
 
-// Load loads a script set with the standard tables (+ probe).
-func Load(scripts map[string]string) (map[string]*plrt.Script, map[string]error) {
-	return engine.ParseScript(scripts, stdCall, stdCheck)
+// LoadPanic is the error reported for a script set whose load panicked.
+type LoadPanic struct {
+	Msg, Stack string
+}
+
+func (e *LoadPanic) Error() string { return "LOAD PANIC: " + e.Msg }
+
+// Load loads a script set with the standard tables (+ probe). A panic inside
+// the loader is recovered and reported as a *LoadPanic for every script.
+func Load(scripts map[string]string) (ok map[string]*plrt.Script, errs map[string]error) {
+	return LoadWith(scripts, stdCall, stdCheck)
+}
+
+func LoadWith(scripts map[string]string, call map[string]plrt.FuncCall, check map[string]plrt.FuncCheck) (ok map[string]*plrt.Script, errs map[string]error) {
+	defer func() {
+		if r := recover(); r != nil {
+			lp := &LoadPanic{Msg: fmt.Sprint(r), Stack: string(debug.Stack())}
+			ok = map[string]*plrt.Script{}
+			errs = map[string]error{}
+			for name := range scripts {
+				errs[name] = lp
+			}
+		}
+	}()
+	return engine.ParseScript(scripts, call, check)
 }
 
 // Load1 loads a single script named name.
